@@ -71,10 +71,16 @@ class RunRecorder:
             results = event.data["results"]
             transformed = event.data.get("transformed_results", results)
             items = []
+            # user-domain and optimizer-domain results must be the same evaluations, item by item
+            aligned = len(results) == len(transformed) and all(
+                type(r) is type(t) and np.array_equal(r.realizations.failed_realizations, t.realizations.failed_realizations)
+                and (getattr(r, "functions", 0) is None) == (getattr(t, "functions", 0) is None)
+                and (getattr(r, "gradients", 0) is None) == (getattr(t, "gradients", 0) is None)
+                for r, t in zip(results, transformed))
             for r, t in zip(results, transformed):
                 self.nitems += 1
-                self.result_ids[id(r)] = self.nitems
-                self._keep = getattr(self, "_keep", []); self._keep.append(r)
+                self.result_ids[id(r)] = self.result_ids[id(t)] = self.nitems    # either domain's object names the item
+                self._keep = getattr(self, "_keep", []); self._keep += [r, t]
                 failed = [bool(b) for b in t.realizations.failed_realizations]
                 meta = r.metadata.get("tag", -1) if isinstance(r.metadata, dict) else -2
                 self._metas = getattr(self, "_metas", []); self._metas.append(r.metadata)
@@ -92,7 +98,7 @@ class RunRecorder:
                 else:
                     items.append({"id": self.nitems, "kind": "G", "hasfun": t.gradients is not None, "obj": float("nan"), "nan": True,
                                   "feas": True, "failed": failed, "meta": int(meta)})
-            self.events.append({"ev": "Res", "items": items})
+            self.events.append({"ev": "Res", "items": items, "aligned": bool(aligned)})
 
     @staticmethod
     def _ev(et):
